@@ -396,6 +396,29 @@ static void vf_case(uint64_t c, vf_rng *r)
 {
     plan_t p = plan[c];
     uint64_t i;
+#if defined(VF_X87PC_ROTATE) && (defined(__x86_64__) || defined(__i386__))
+    /* the square-root families are few plan items: instead of the one precision-control setting the case was given (vf_common.h), they run under all three */
+    {
+        static int inner;
+        if (!inner && (p.kind == K_SQRT32_RANDOM || p.kind == K_SQRT64_SQUARES_RANDOM || p.kind == K_SQRT64_SQUARES_TOP || p.kind == K_SQRT64_POW2 || p.kind == K_SQRT64_RANDOM))
+        {
+            static unsigned short const pcs[2] = {_FPU_DOUBLE, _FPU_SINGLE};
+            fpu_control_t cw0, cw;
+            _FPU_GETCW(cw0);
+            inner = 1;
+            for (int k = 0; k < 2; ++k)
+            {
+                vf_rng r2 = *r;
+                cw = (fpu_control_t)((cw0 & ~_FPU_EXTENDED) | pcs[k]);
+                _FPU_SETCW(cw);
+                vf_case(c, &r2);
+            }
+            _FPU_SETCW(cw0);
+            inner = 0;
+            VF_COUNT("sqrt-families-under-every-x87-precision-setting");
+        }
+    }
+#endif
     switch (p.kind)
     {
     case K_SQRT32_RANGE:
